@@ -50,6 +50,9 @@ type svcDef struct {
 	Extra string
 	Sess  []sess
 	Abort func(tok string) [][]byte // history element: session aborted mid-command / left in a state
+	// further ways to leave a session unfinished (history codes 4, 5, ...); every one of them precedes every probe
+	// template in a fixed plan of its own
+	Aborts []func(tok string) [][]byte
 	SidKey string
 }
 
@@ -65,7 +68,9 @@ var svcs = []svcDef{
 	{Name: "ftp", Type: "ftp", Net: "tcp", Port: 21, Extra: "fs_base=\"$WORK/ftproot\"\n", SidKey: "ftp.sessionid",
 		Sess: []sess{
 			{"login-cwd-pub", func(t string) [][]byte { return lines("USER anonymous", "PASS anonymous", "CWD pub", "PWD", "SIZE "+t) }},
-			{"login-pwd", func(t string) [][]byte { return lines("USER anonymous", "PASS anonymous", "PWD", "SIZE "+t, "CWD incoming", "PWD") }},
+			{"login-pwd", func(t string) [][]byte {
+				return lines("USER anonymous", "PASS anonymous", "PWD", "SIZE "+t, "CWD incoming", "PWD")
+			}},
 			{"badlogin-gated", func(t string) [][]byte { return lines("USER "+t, "PASS "+t, "PWD", "FEAT") }},
 			// a TLS upgrade that fails (a handshake record that is not a ClientHello): the session goes on in plain text
 			{"authtls-fails", func(t string) [][]byte {
@@ -74,7 +79,9 @@ var svcs = []svcDef{
 				return append(st, lines("NOOP", "USER anonymous", "PASS anonymous", "PWD", "SIZE "+t)...)
 			}},
 		},
-		Abort: func(t string) [][]byte { return [][]byte{[]byte("USER anonymous\r\n"), []byte("PASS anonymous\r\n"), []byte("CWD incoming\r\n"), []byte("SIZE " + t + "\r\n"), []byte("CWD pu")} }},
+		Abort: func(t string) [][]byte {
+			return [][]byte{[]byte("USER anonymous\r\n"), []byte("PASS anonymous\r\n"), []byte("CWD incoming\r\n"), []byte("SIZE " + t + "\r\n"), []byte("CWD pu")}
+		}},
 	{Name: "smtp", Type: "smtp", Net: "tcp", Port: 25,
 		Sess: []sess{
 			{"mail", func(t string) [][]byte {
@@ -84,8 +91,27 @@ var svcs = []svcDef{
 			{"mail2", func(t string) [][]byte {
 				return append(lines("HELO "+t+".test", "MAIL FROM:<"+t+"@c.test>", "DATA"), []byte("Subject: second "+t+"\r\n\r\ntext "+t+"\r\n.\r\n"))
 			}},
+			// a message sent in chunks (BDAT), complete
+			{"bdat", func(t string) [][]byte {
+				c1 := "Subject: chunked " + t + "\r\n\r\n"
+				c2 := "chunk body " + t + "\r\n"
+				return append(lines("EHLO "+t+".test", "MAIL FROM:<"+t+"@d.test>", "RCPT TO:<y@b.test>"), []byte(fmt.Sprintf("BDAT %d\r\n%s", len(c1), c1)), []byte(fmt.Sprintf("BDAT %d LAST\r\n%s", len(c2), c2)))
+			}},
 		},
-		Abort: func(t string) [][]byte { return [][]byte{[]byte("HELO " + t + ".test\r\n"), []byte("MAIL FROM:<" + t + "@a.test>\r\n"), []byte("DATA\r\n"), []byte("Subject: half " + t + "\r\n\r\nunfinished")} }},
+		// an earlier session that goes away in the middle of a message: half-way through DATA, or (Aborts) after a
+		// BDAT chunk that is not the last, or after the envelope only
+		Aborts: []func(string) [][]byte{
+			func(t string) [][]byte {
+				c1 := "Subject: abandoned " + t + "\r\n\r\nleft behind " + t + "\r\n"
+				return [][]byte{[]byte("EHLO " + t + ".test\r\n"), []byte("MAIL FROM:<" + t + "@a.test>\r\n"), []byte("RCPT TO:<x@b.test>\r\n"), []byte(fmt.Sprintf("BDAT %d\r\n%s", len(c1), c1))}
+			},
+			func(t string) [][]byte {
+				return [][]byte{[]byte("EHLO " + t + ".test\r\n"), []byte("MAIL FROM:<" + t + "@e.test>\r\n"), []byte("RCPT TO:<" + t + "@b.test>\r\n")}
+			},
+		},
+		Abort: func(t string) [][]byte {
+			return [][]byte{[]byte("HELO " + t + ".test\r\n"), []byte("MAIL FROM:<" + t + "@a.test>\r\n"), []byte("DATA\r\n"), []byte("Subject: half " + t + "\r\n\r\nunfinished")}
+		}},
 	{Name: "ldap", Type: "ldap", Net: "tcp", Port: 389, Extra: "credentials=[\"root:root\"]\n",
 		Sess: []sess{
 			{"bind-add", func(t string) [][]byte {
@@ -98,26 +124,36 @@ var svcs = []svcDef{
 				return [][]byte{gen.LDAPBind(1, "cn="+t, "nope"), gen.LDAPMsg(2, gen.BER(0x4a, []byte("cn="+t+",dc=y"))), gen.LDAPSearch(3, "", gen.LDAPFilterPresent("objectClass"))}
 			}},
 		},
-		Abort: func(t string) [][]byte { b := gen.LDAPBind(1, "root", "root"); s := gen.LDAPSearch(2, "dc="+t, gen.LDAPFilterEq("uid", t)); return [][]byte{b, s[:len(s)/2]} }},
+		Abort: func(t string) [][]byte {
+			b := gen.LDAPBind(1, "root", "root")
+			s := gen.LDAPSearch(2, "dc="+t, gen.LDAPFilterEq("uid", t))
+			return [][]byte{b, s[:len(s)/2]}
+		}},
 	{Name: "telnet", Type: "telnet", Net: "tcp", Port: 23, SidKey: "telnet.sessionid",
 		Sess: []sess{
 			{"login-cmds", func(t string) [][]byte { return lines("user"+t, "pass"+t, "echo "+t, "ls") }},
 			{"login-one", func(t string) [][]byte { return lines(t, t, "cat /etc/"+t) }},
-			{"user-only", func(t string) [][]byte { return lines("only"+t) }},
+			{"user-only", func(t string) [][]byte { return lines("only" + t) }},
 		},
 		Abort: func(t string) [][]byte { return [][]byte{[]byte("u" + t + "\r\n"), []byte("half")} }},
 	{Name: "redis", Type: "redis", Net: "tcp", Port: 6379,
 		Sess: []sess{
 			{"set-get", func(t string) [][]byte { return [][]byte{respCmd("SET", t, "v"+t), respCmd("GET", t), respCmd("PING")} }},
-			{"keys", func(t string) [][]byte { return [][]byte{respCmd("KEYS", t+"*"), respCmd("DEL", t), respCmd("FOO"+t)} }},
+			{"keys", func(t string) [][]byte {
+				return [][]byte{respCmd("KEYS", t+"*"), respCmd("DEL", t), respCmd("FOO" + t)}
+			}},
 			{"config", func(t string) [][]byte { return [][]byte{respCmd("CONFIG", "SET", "dir", "/"+t), respCmd("SAVE")} }},
 		},
 		Abort: func(t string) [][]byte { c := respCmd("SET", t, "x"); return [][]byte{c[:len(c)-4]} }},
 	{Name: "memcached", Type: "memcached", Net: "tcp", Port: 11211,
 		Sess: []sess{
-			{"set-get", func(t string) [][]byte { return [][]byte{[]byte("set " + t + " 0 0 5\r\nhello\r\n"), []byte("get " + t + "\r\n"), []byte("stats\r\n")} }},
+			{"set-get", func(t string) [][]byte {
+				return [][]byte{[]byte("set " + t + " 0 0 5\r\nhello\r\n"), []byte("get " + t + "\r\n"), []byte("stats\r\n")}
+			}},
 			{"get", func(t string) [][]byte { return lines("get "+t, "delete "+t, "version") }},
-			{"add", func(t string) [][]byte { return [][]byte{[]byte("add " + t + " 1 2 3\r\nabc\r\n"), []byte("flush_all\r\n")} }},
+			{"add", func(t string) [][]byte {
+				return [][]byte{[]byte("add " + t + " 1 2 3\r\nabc\r\n"), []byte("flush_all\r\n")}
+			}},
 		},
 		Abort: func(t string) [][]byte { return [][]byte{[]byte("set " + t + " 0 0 50\r\nshort")} }},
 	{Name: "http", Type: "http", Net: "tcp", Port: 80, SidKey: "http.sessionid",
@@ -128,18 +164,26 @@ var svcs = []svcDef{
 			{"get2", func(t string) [][]byte {
 				return [][]byte{gen.HTTPRequest("GET", "/a/"+t, [][2]string{{"Host", "h.test"}, {"X-T", t}}, nil, false), gen.HTTPRequest("GET", "/b/"+t, [][2]string{{"Host", "h.test"}}, nil, false), gen.HTTPRequest("DELETE", "/c/"+t, [][2]string{{"Host", "h.test"}}, nil, false)}
 			}},
-			{"put", func(t string) [][]byte { return [][]byte{gen.HTTPRequest("PUT", "/up/"+t, [][2]string{{"Host", "h.test"}}, []byte(strings.Repeat(t, 20)), true)} }},
+			{"put", func(t string) [][]byte {
+				return [][]byte{gen.HTTPRequest("PUT", "/up/"+t, [][2]string{{"Host", "h.test"}}, []byte(strings.Repeat(t, 20)), true)}
+			}},
 		},
-		Abort: func(t string) [][]byte { return [][]byte{[]byte("POST /" + t + " HTTP/1.1\r\nHost: x\r\nContent-Length: 100\r\n\r\nshort")} }},
+		Abort: func(t string) [][]byte {
+			return [][]byte{[]byte("POST /" + t + " HTTP/1.1\r\nHost: x\r\nContent-Length: 100\r\n\r\nshort")}
+		}},
 	{Name: "tftp", Type: "tftp", Net: "udp", Port: 69,
 		Sess: []sess{
 			{"write", func(t string) [][]byte {
-				return [][]byte{gen.TFTPPacket(2, "f-"+t, "octet"), append([]byte{0, 3, 0, 1}, []byte(t + strings.Repeat("x", 512-len(t)))...), append([]byte{0, 3, 0, 2}, []byte("tail-"+t)...)}
+				return [][]byte{gen.TFTPPacket(2, "f-"+t, "octet"), append([]byte{0, 3, 0, 1}, []byte(t+strings.Repeat("x", 512-len(t)))...), append([]byte{0, 3, 0, 2}, []byte("tail-"+t)...)}
 			}},
 			{"read", func(t string) [][]byte { return [][]byte{gen.TFTPPacket(1, "r-"+t, "netascii")} }},
-			{"write2", func(t string) [][]byte { return [][]byte{gen.TFTPPacket(2, "g-"+t, "octet"), append([]byte{0, 3, 0, 1}, []byte("small-"+t)...)} }},
+			{"write2", func(t string) [][]byte {
+				return [][]byte{gen.TFTPPacket(2, "g-"+t, "octet"), append([]byte{0, 3, 0, 1}, []byte("small-"+t)...)}
+			}},
 		},
-		Abort: func(t string) [][]byte { return [][]byte{gen.TFTPPacket(2, "h-"+t, "octet"), append([]byte{0, 3, 0, 1}, make([]byte, 512)...)} }},
+		Abort: func(t string) [][]byte {
+			return [][]byte{gen.TFTPPacket(2, "h-"+t, "octet"), append([]byte{0, 3, 0, 1}, make([]byte, 512)...)}
+		}},
 }
 
 func ldapAdd(id int, t string) []byte {
@@ -242,6 +286,13 @@ func plans(sv svcDef, tier string, seed int64) []runPlan {
 				h = append(h, r.Intn(4))
 			}
 			ps = append(ps, runPlan{Kind: "history", Sess: []int{probe}, Hist: h})
+		}
+	}
+	// every way of abandoning a session, directly before every probe template and with one complete session between
+	for c := 3; c < 4+len(sv.Aborts); c++ {
+		for probe := 0; probe < len(sv.Sess); probe++ {
+			ps = append(ps, runPlan{Kind: "history", Sess: []int{probe}, Hist: []int{c}})
+			ps = append(ps, runPlan{Kind: "history", Sess: []int{probe}, Hist: []int{c, (probe + c) % len(sv.Sess)}})
 		}
 	}
 	// clients that share a host: distinct addresses that differ in the port only (NAT, two processes on one
@@ -583,6 +634,8 @@ func (prop) Child(b core.Batch, o *core.Obs) {
 				var steps [][]byte
 				if h == 3 {
 					steps = sv.Abort(tok)
+				} else if h > 3 {
+					steps = sv.Aborts[(h-4)%len(sv.Aborts)](tok)
 				} else {
 					steps = sv.Sess[h%len(sv.Sess)].Steps(tok)
 				}
